@@ -63,7 +63,13 @@ registers beyond 14 qubits, numpy integers as INT gate arguments / loop counts (
 JaqalError), numeric-looking strings (not numeric arguments), two usepulses modules that define the SAME gate name
 differently (which one wins is not C03's business).
 
+Every run contains a systematic sweep (each family at each of its threshold sizes - one variant per size in the quick
+tier, every variant x every surface form in the thorough one; register size x gate x orientation; the API combinations)
+followed by `n` random cases.  Expensive corners are rationed: alias chains beyond 66 (the library resolves a qubit
+through a chain in far more than linear time) and registers of 13 / 14 qubits appear a few times per run only.
+
     PYTHONPATH=/verif /venv/bin/python -m harness.agents.c03_scale [--seed S] [--count N] [--thorough]
+    recommended: quick n=120 (about 300 cases, 10 - 15 s), thorough n=400 (about 2150 cases, 100 - 110 s).
 """
 import argparse
 import atexit
@@ -552,17 +558,21 @@ def header_text(ap):
 
 
 def to_text(ap, sep="\n", prefix=()):
+    """sep = ";" puts all the statements of the body on ONE line, separated by semicolons"""
     out = list(prefix) + header_text(ap)
     inner = " ; " if sep == "\n" else sep
     for name, params, body in ap["macros"]:
         out.append(" ".join(["macro", name] + list(params)) + " " + _titem(body, inner))
+    stm = []
     for sub in ap["subs"]:
         body = [_titem(x, inner) for x in sub["items"]]
-        out += (["prepare_all"] + body + ["measure_all"]) if sub["style"] == "plain" else (["subcircuit {"] + body + ["}"])
-    if sep == "\n":
-        return "\n".join(out) + "\n"
-    # header statements and the braces of subcircuit blocks stay on lines of their own
-    return "\n".join(out) + "\n"
+        if sub["style"] == "plain":
+            stm += ["prepare_all"] + body + ["measure_all"]
+        elif sep == "\n":
+            stm += ["subcircuit {"] + body + ["}"]
+        else:
+            stm.append("subcircuit { " + sep.join(body) + " }")
+    return "\n".join(out) + "\n" + sep.join(stm) + "\n"
 
 
 # ------------------------------------------------------------------ surface form 2: S-expression for build()
@@ -1136,8 +1146,8 @@ def fam_depth(d, rng, variant):
     free = [2, 3, 4]
     sib = lambda: mk(rng, gs, rng.choice(["H1", "R", "P", "H2"]), [Qx("q", free.pop())])
     if variant == "loops":
-        twos = set(rng.sample(range(d), min(3, d)))
-        cur = ["loop", 1, ["seq", [g(), g()]]]
+        twos = {d // 2, rng.randrange(d)}  # (and the deepest loop runs twice)
+        cur = ["loop", 2, ["seq", [g(), g()]]]
         for lv in range(d - 1):
             cur = ["loop", 2 if lv in twos else 1, ["seq", [g(), cur, g()]]]
     elif variant == "seqpar":
@@ -1157,7 +1167,7 @@ def fam_depth(d, rng, variant):
         for lv in range(levels):
             brs = [["seq", [g(), cur, g()]]] + ([sib()] if lv in with_sib else [])
             rng.shuffle(brs)
-            cur = ["loop", 2 if lv == levels // 2 else 1, ["par", brs]]
+            cur = ["loop", 2 if lv in (0, levels // 2, levels - 1) else 1, ["par", brs]]
     else:
         raise ValueError(variant)
     ap["subs"].append(plain(scramble(rng, gs, [Qx("q", i) for i in range(5)]) + [cur, mk(rng, gs, "T3", [Qx("q", 2), Qx("q", 0), Qx("q", 1)]),
@@ -1241,34 +1251,46 @@ def fam_macros(k, rng, variant):
 
 
 def fam_aliases(k, rng, variant):
-    n = rng.choice([3, 4])
+    n = rng.choice([4, 5, 6])
     ap = base_ap(n)
     gs = ap["gset"]
     if rng.random() < 0.4:
         ap["lets"].append(["LN", n])
-    ln = lambda: "LN" if (ap["lets"] and rng.random() < 0.4) else n
+    ln = lambda v: "LN" if (ap["lets"] and v == n and rng.random() < 0.4) else v
     cur = list(range(n))
     chain = []
-    ap["maps"].append(["al0", "whole", "q"] if rng.random() < 0.5 else ["al0", "slice", "q", 0, ln(), None])
+    ap["maps"].append(["al0", "whole", "q"] if rng.random() < 0.5 else ["al0", "slice", "q", 0, ln(n), None])
     chain.append(list(cur))
+    shrink_at = set(rng.sample(range(1, k), min(k - 1, rng.choice([0, 1, 2, 3]))))
     for j in range(1, k):
-        src = f"al{j - 1}"
-        op = rng.choice(["whole", "reverse", "reverse", "explicit", "explicit_step", "rotate_out"])
+        src, m = f"al{j - 1}", len(cur)
+        op = rng.choice(["whole", "reverse", "reverse", "reverse", "explicit", "explicit_step"])
+        if j in shrink_at and m > 3:
+            op = rng.choice(["drop_first", "drop_last", "stride2" if m >= 5 else "drop_first", "reverse_drop"])
         if op == "whole":
             ap["maps"].append([f"al{j}", "whole", src])
         elif op == "reverse":
-            ap["maps"].append([f"al{j}", "slice", src, n - 1, -1, -1])
+            ap["maps"].append([f"al{j}", "slice", src, m - 1, -1, -1])
             cur = cur[::-1]
         elif op == "explicit":
-            ap["maps"].append([f"al{j}", "slice", src, 0, ln(), None])
+            ap["maps"].append([f"al{j}", "slice", src, 0, ln(m), None])
         elif op == "explicit_step":
-            ap["maps"].append([f"al{j}", "slice", src, None, ln(), 1])
-        else:  # (length-preserving: nothing to rotate with slices - a whole alias again)
-            ap["maps"].append([f"al{j}", "whole", src])
+            ap["maps"].append([f"al{j}", "slice", src, None, ln(m), 1])
+        elif op == "drop_first":
+            ap["maps"].append([f"al{j}", "slice", src, 1, m, None])
+            cur = cur[1:]
+        elif op == "drop_last":
+            ap["maps"].append([f"al{j}", "slice", src, 0, m - 1, None])
+            cur = cur[:-1]
+        elif op == "stride2":
+            ap["maps"].append([f"al{j}", "slice", src, 0, m, 2])
+            cur = cur[0:m:2]
+        else:
+            ap["maps"].append([f"al{j}", "slice", src, m - 2, -1, -1])
+            cur = cur[m - 2::-1]
         chain.append(list(cur))
     ap["maps"].append(["zq", "item", f"al{k // 3}", 1])
-    ap["maps"].append(["tail", "slice", f"al{k - 1}", 1, n, None])
-    refmap = {i: [Qx("q", i)] for i in range(n)}
+    ap["maps"].append(["tail", "slice", f"al{k - 1}", 1, len(chain[k - 1]), None])
     deep = {i: [] for i in range(n)}
     for lvl in (k - 1, k // 2):
         for pos, f in enumerate(chain[lvl]):
@@ -1276,11 +1298,12 @@ def fam_aliases(k, rng, variant):
     deep[chain[k // 3][1]].append("zq")
     for pos, f in enumerate(chain[k - 1][1:]):
         deep[f].append(Qx("tail", pos))
-    items = scramble(rng, gs, [Qx("q", i) for i in range(n)])
-    for _ in range(rng.choice([2, 3])):
-        name = rng.choice(["CX", "NS", "CR", "T3" if n >= 3 else "NS", "R"])
-        sel = rng.sample(range(n), arity(gs, name))
-        items.append(mk(rng, gs, name, [rng.choice(deep[i]) if rng.random() < 0.8 else refmap[i][0] for i in sel]))
+    reach = [i for i in range(n) if deep[i]]
+    items = scramble(rng, gs, [Qx("q", i) for i in reach])
+    for _ in range(2):  # (resolving a qubit through a long chain is expensive in the library: few references)
+        name = rng.choice(["CX", "NS", "CR", "T3"] if k <= 40 else ["CX", "NS", "CR"])
+        sel = rng.sample(reach, arity(gs, name))
+        items.append(mk(rng, gs, name, [rng.choice(deep[i]) if rng.random() < 0.85 else Qx("q", i) for i in sel]))
     ap["subs"].append(plain(items))
     return ap
 
@@ -1451,11 +1474,14 @@ def _name_pool(rng):
 
 def fam_names_spelling(k, rng, variant):
     pool = [x for x in _name_pool(rng) if x not in BASE]
-    if variant == "pairs":  # names that differ by a dotted prefix / suffix / underscore only
-        s = rng.choice(_STEMS)
-        fam = [s, f"cal.{s}", f"{s}.cal", f"{s}_", f"_{s}", f"{s}.{s}", f"cal.cal.{s}", f"{s}0", f"{s}.0", f"__{s}", f"__{s}__", f"{s}.x"]
-        fam = [x for x in dict.fromkeys(fam) if x in pool or x not in BASE and x not in BOUNDS and x not in
-               ("let", "map", "register", "macro", "loop", "import", "usepulses", "from", "as", "branch", "subcircuit", "version")]
+    if variant == "pairs":  # names that differ by a dotted prefix / suffix / underscore only, in ONE namespace
+        bad = set(BASE) | set(BOUNDS) | {"let", "map", "register", "macro", "loop", "import", "usepulses", "from", "as", "branch", "subcircuit", "version"}
+        stems = rng.sample([x for x in _STEMS if x not in bad], 5)
+        sp = lambda t: rng.sample([f"cal.{t}", f"{t}.cal", f"{t}_", f"_{t}", f"{t}.{t}", f"cal.cal.{t}", f"{t}0", f"{t}.0", f"__{t}", f"{t}.x"], 3)
+        groups = {"gate1": [stems[0], f"cal.{stems[0]}"] + sp(stems[0]), "let_angle": [stems[1], f"cal.{stems[1]}"] + sp(stems[1]),
+                  "alias_q": [stems[2]] + sp(stems[2])[:2], "macro": [stems[3]] + sp(stems[3])[:1], "param": [stems[4]] + sp(stems[4])[:1]}
+        fam = [x for g in groups.values() for x in g]
+        fam = list(dict.fromkeys(fam))
         names = fam + [x for x in rng.sample(pool, len(pool)) if x not in fam]
     elif variant == "markers":
         first = [x for x in pool if x.startswith(("I_", "__", "prepare", "measure")) or x.endswith("_stretched") or "block" in x or x in ("gate", "circuit", "array_item")]
@@ -1463,14 +1489,26 @@ def fam_names_spelling(k, rng, variant):
         names = first + [x for x in rng.sample(pool, len(pool)) if x not in first]
     else:
         names = rng.sample(pool, len(pool))
-    names = names[:max(k, 8)]
-    if variant == "pairs":
-        rng.shuffle(names)
+    names = names[:max(k, 8) + (len(fam) if variant == "pairs" else 0)]
     roles = ["let_angle", "gate1", "alias_q", "let_index", "macro", "param", "gate2", "let_angle", "alias_q", "param", "alias_r", "let_count"]
     by = {r: [] for r in roles + ["register"]}
-    by["register"].append(names[0])
-    for j, nm in enumerate(names[1:]):
-        by[roles[j % len(roles)]].append(nm)
+    if variant == "pairs":
+        # the spellings of ONE stem share a namespace: three gates, three angles, two qubit aliases, two macros, parameters
+        rest = [x for x in names if x not in fam]
+        taken = set()
+        for r, g in groups.items():
+            for nm in g:
+                if nm not in taken:
+                    taken.add(nm)
+                    by[r].append(nm)
+            rng.shuffle(by[r])
+        by["register"].append(rest[0])
+        for j, nm in enumerate(rest[1:]):
+            by[roles[j % len(roles)]].append(nm)
+    else:
+        by["register"].append(names[0])
+        for j, nm in enumerate(names[1:]):
+            by[roles[j % len(roles)]].append(nm)
     n = 3
     reg = by["register"][0]
     gset = dict(BASE)
@@ -1585,7 +1623,7 @@ FAMILIES = {
               ("literal", "let", "macro_arg", "nested", "macro_in_loop", "par_body")),
     "depth": (fam_depth, (8, 16, 20, 32, 40, 64, 100), (8, 9, 16, 17, 20, 32, 33, 40, 64, 65, 100), ("loops", "seqpar", "triple")),
     "macros": (fam_macros, (8, 16, 33, 65, 100, 130), (8, 9, 16, 17, 32, 33, 64, 65, 100, 128, 130), ("chain", "count", "params")),
-    "aliases": (fam_aliases, (8, 16, 33, 65), (8, 9, 16, 17, 32, 33, 64, 65, 100, 130), ("chain",)),
+    "aliases": (fam_aliases, (8, 16, 33, 65, 66), (8, 9, 16, 17, 32, 33, 64, 65, 66, 100, 130), ("chain", "chain")),
     "header": (fam_header, (8, 16, 32, 49, 64, 100, 128, 256, 1000), (8, 9, 16, 17, 32, 33, 49, 64, 65, 100, 128, 129, 255, 256, 257, 1000),
                ("lets", "maps", "both", "override")),
     "subcircuits": (fam_subcircuits, (8, 16, 32, 64, 128, 256), (8, 9, 16, 17, 32, 33, 64, 65, 128, 129, 256, 257, 1000), ("plain", "block", "mixed")),
@@ -1751,10 +1789,12 @@ def sweep_cases(rng, thorough):
                 vs = vs if thorough else [v for v in vs if v.endswith(rng.choice(["/up", "/down", "/rand"]))]
                 if not thorough and size >= 13:
                     vs = rng.sample(vs, 3)
-            elif thorough:
+            elif thorough or dim in ("names_spelling", "names_long", "aliases"):
                 vs = list(variants)
             else:
                 vs = [variants[(j + rng.randrange(len(variants))) % len(variants)]]
+            if dim == "aliases" and size > 66:
+                vs = vs[:1]
             for v in vs:
                 if not allowed(dim, v, size):
                     continue
@@ -1778,7 +1818,7 @@ def random_case(rng, thorough):
             continue
         if dim == "names_long" and size > 1000 and rng.random() < 0.7:
             continue
-        if dim == "aliases" and size > 65 and rng.random() < (0.5 if thorough else 0.8):
+        if dim == "aliases" and size > 66 and (not thorough or rng.random() < 0.9):
             continue
         if allowed(dim, variant, size):
             return dim, size, variant
@@ -1842,7 +1882,7 @@ def run(seed: int, n: int, driver: str = DEFAULT_DRIVER, thorough: bool = False)
         return ok
 
     for dim, size, variant in sweep_cases(rng, thorough):
-        forms = ("text", "sexpr", "builder") if (thorough and dim not in ("register", "parallel")) else (None,)
+        forms = ("text", "sexpr", "builder") if (thorough and dim not in ("register", "parallel") and not (dim == "aliases" and size > 66)) else (None,)
         for form in forms:
             case, ap = new_case(rng, dim, size, variant, form)
             bump("sweep:" + dim)
